@@ -253,3 +253,103 @@ PLANS["C12"] = dict(
     floors={"quick": {"op:merge": 300, "op:updchain": 1000, "op:upd": 2000}},
     assumptions=[],
 )
+
+PLANS["C01"] = dict(
+    suites=[Suite("tl", 600, 50000), Suite("merged", 100, 3000)],
+    floors=TL_FLOORS,
+    assumptions=["keyframes as the builder hands them over: sorted (C11), positions in [0,1]; exact arithmetic — the binary32 evaluation of the same model term is what is compared with the code"],
+)
+PLANS["C02"] = dict(
+    suites=[Suite("tl", 600, 50000), Suite("pos", 500, 20000)],
+    floors=TL_FLOORS,
+    assumptions=["easings that fix 0 and 1 (all built-ins, C13); values whose lerp is exact at 0 and 1 (floats; integers of one kind within its range, C14)"],
+)
+
+
+def rec_c10_dup_zero(f):
+    """F-C10: two 0% keyframes define the property; the override replaces frame 0 only"""
+    return bool(f.get("dup0"))
+
+
+PLANS["C10"] = dict(
+    suites=[Suite("tl", 600, 50000), Suite("merged", 100, 3000)],
+    floors=TL_FLOORS,
+    recognisers={"c10_dup_zero": rec_c10_dup_zero},
+    assumptions=["start_value_until_delay: no second keyframe defines the property at 0 % (NoDupAtZero) and endpoint-fixing easings; the unrestricted statement is refuted (F-C10)"],
+)
+
+
+# ---------------------------------------------------------------------------------------------------
+# C01: implementation against the declarative CSS reading evaluated in exact arithmetic
+
+def extra_c01(prop, tier, seed, profiles):
+    n = 250 if tier == "quick" else 12000
+    base = os.path.join(P.WORK, prop, f"spec.{tier}")
+    os.makedirs(os.path.dirname(base), exist_ok=True)
+    P.gen_ops("tl", seed + 101, n, base + ".gen")
+    ops = P.read_lines(base + ".gen")
+    impl_ops, spec_ops, keep = [], [], []
+    shapes = {}
+    exact = False
+    cur_tl = None
+    for op in ops:
+        w = op.split(" ")
+        if w[0] == "shape":
+            shapes[w[1]] = [t.split(":") for t in w[2:]]
+        if w[0] == "reset": exact = False
+        if op == "# exactcfg": exact = True
+        if w[0] in ("reset", "shape"):
+            impl_ops.append(op); spec_ops.append(op); keep.append(None); continue
+        if exact and w[0] == "tl" and w[1] == "0":
+            cur_tl = w
+            impl_ops.append(op); spec_ops.append("q" + op); keep.append(None)
+        elif exact and w[0] == "start" and w[1] == "0":
+            impl_ops.append(op); spec_ops.append("q" + op); keep.append(None)
+        elif exact and w[0] == "upd" and w[1] == "0" and cur_tl is not None:
+            impl_ops.append(op); spec_ops.append("q" + op); keep.append(cur_tl)
+        else:
+            impl_ops.append("#"); spec_ops.append("#"); keep.append(None)
+    open(base + ".impl.ops", "w").write("\n".join(impl_ops) + "\n")
+    open(base + ".spec.ops", "w").write("\n".join(spec_ops) + "\n")
+    P.run_stream(P.harness_bin(profiles[0]), ["run"], base + ".impl.ops", base + ".impl")
+    P.run_stream(P.MODEL_EXE, [], base + ".spec.ops", base + ".spec")
+    impl, spec = P.read_lines(base + ".impl"), P.read_lines(base + ".spec")
+    fails, checked, determined = [], 0, 0
+    for L, tlw in enumerate(keep):
+        if tlw is None: continue
+        a, b = impl[L], spec[L]
+        if a.startswith("panic") or b.startswith(("bad", "panic")): continue
+        fields = shapes[tlw[2]]
+        anim = [i for i, f in enumerate(fields) if f[1] == "a"]
+        nkf = int(tlw[8])
+        # per-field magnitude of the keyframe values (for the rounding allowance)
+        mag = {i: 1.0 for i in anim}
+        q = 9
+        for _ in range(nkf):
+            for j, fi in enumerate(anim):
+                tok = tlw[q + 2 + j]
+                if tok != "-":
+                    v = abs(f32(tok)) if fields[fi][0] in ("f32", "f64") else abs(int(tok))
+                    mag[fi] = max(mag[fi], v)
+            q += 2 + len(anim)
+        av, bv = a.split(" "), b.split(" ")
+        uw = impl_ops[L].split(" ")
+        for fi in anim:
+            if bv[fi] == "-" or bv[fi].startswith("panic"): continue
+            determined += 1
+            checked += 1
+            if fields[fi][0] in ("f32", "f64"):
+                x, y = f32(av[fi].split("!")[0]), f32(bv[fi])
+                start_mag = abs(f32(uw[3 + fi]))
+                ok = abs(x - y) <= 4e-6 * max(mag[fi], abs(y), start_mag if start_mag == start_mag else 0, 1.0) + 1e-30 or (x != x and y != y)
+            else:
+                ok = abs(int(av[fi]) - int(bv[fi])) <= max(1, 4e-6 * max(mag[fi], abs(int(bv[fi]))))
+            if not ok:
+                fails.append(dict(line=L, directive=f"spec css-value field {fi}", op=impl_ops[L], got=av[fi], want=bv[fi],
+                                  ops=[o for o in impl_ops[max(0, L - 60):L + 1] if not o == "#"]))
+    return dict(checked=checked, fails=fails, evaluations=checked, hist={"spec-determined-fields": determined},
+                notes=[f"{checked} (timeline, time, field) values compared with the exact CSS reading (Spec.timelineValues at ℚ)"])
+
+
+PLANS["C01"]["extra"] = extra_c01
+PLANS["C01"]["floors"] = {"quick": dict(TL_FLOORS["quick"], **{"spec-determined-fields": 2000})}
